@@ -7,7 +7,13 @@ for each cell to its measure, and yield 'averaged' matching matrices whose rows 
 
 Setting: `a = [a_0 < … < a_m]`, `b = [b_0 < … < b_n]` node parameters along the line with
 `a_0 = b_0` and `a_m = b_n`; the cells are `cells a = [(a_0,a_1), …]`, `cells b`.
-`lineTess` is the double loop of `line_tessellation` over the collinear branch of `segments_3d`.
+`lineTess ptol` is the double loop of `line_tessellation` over the collinear branch of `segments_3d`,
+`ptol` the tolerance below which `segments_3d` answers with one point instead of a segment.
+
+Hypotheses on the tolerance (`gapInc`, `sepNodes`; both decidable): cells are at least `ptol` long and
+a node of `a` and a node of `b` either coincide or are at least `ptol` apart.  They are needed: an
+overlap shorter than `ptol` is reported with weight 0 by the code, so that the sums are then only
+correct up to `ptol` per pair.  For `ptol ≤ 0` they reduce to "strictly increasing".
 
 The 2-D part of the property (`triangulations`, `surface_tessellations`, `match_2d`; shapely based) is
 NOT modelled: it is checked by the oracle of harness/props/c33.py with the same statement.
@@ -16,46 +22,45 @@ import PorepyVerif.C33.Lemmas
 
 namespace PorepyVerif.C33
 
-/-- Every reported overlap is non-negative — for arbitrary (also unsorted, overlapping) cell lists. -/
-theorem line_tess_nonneg (c1 c2 : List Cell) : ∀ t ∈ lineTess c1 c2, 0 ≤ t.2.2 :=
-  fun t ht => (tess_bounds c1 c2 0 t ht).2.2.2
+/-- Every reported overlap is non-negative — for arbitrary (also unsorted, overlapping) cell lists
+    and any tolerance. -/
+theorem line_tess_nonneg (ptol : Rat) (c1 c2 : List Cell) : ∀ t ∈ lineTess ptol c1 c2, 0 ≤ t.2.2 :=
+  fun t ht => (tess_bounds (pairOverlap ptol) (pairOverlap_nonneg ptol) c1 c2 0 t ht).2.2.2
 
 /-- Reported indices are valid cell indices of the two tessellations. -/
-theorem line_tess_indices (c1 c2 : List Cell) :
-    ∀ t ∈ lineTess c1 c2, t.1 < c1.length ∧ t.2.1 < c2.length := by
+theorem line_tess_indices (ptol : Rat) (c1 c2 : List Cell) :
+    ∀ t ∈ lineTess ptol c1 c2, t.1 < c1.length ∧ t.2.1 < c2.length := by
   intro t ht
-  have := tess_bounds c1 c2 0 t ht
+  have := tess_bounds (pairOverlap ptol) (pairOverlap_nonneg ptol) c1 c2 0 t ht
   exact ⟨by omega, this.2.2.1⟩
 
 /-- The total weight reported for the pair (cell `i` of `a`, cell `j` of `b`) — the `(i, j)` entry of the
     unscaled overlap matrix — is the length of the intersection of the two cells,
     `max 0 (min(a_{i+1}, b_{j+1}) - max(a_i, b_j))`. -/
-theorem line_tess_entry_spec (a b : List Rat) (ha : strictInc a = true) (hb : strictInc b = true)
+theorem line_tess_entry_spec (ptol : Rat) (a b : List Rat) (ha : gapInc ptol a = true)
+    (hb : gapInc ptol b = true) (hs : sepNodes ptol a b = true)
     (i j : Nat) (c d : Cell) (hc : (cells a)[i]? = some c) (hd : (cells b)[j]? = some d) :
-    entry (lineTess (cells a) (cells b)) i j = rmax 0 (rmin c.2 d.2 - rmax c.1 d.1) := by
-  have h := entry_tessFrom (cells a) (cells b) 0 i j c d hc hd
+    entry (lineTess ptol (cells a) (cells b)) i j = rmax 0 (rmin c.2 d.2 - rmax c.1 d.1) := by
+  rw [lineTess_eq_X ptol a b ha hb hs]
+  have h := entry_tessFrom pairOverlapX (cells a) (cells b) 0 i j c d hc hd
   rw [Nat.zero_add] at h
-  unfold lineTess
   rw [h]
-  cases a with
-  | nil => simp [cells] at hc
-  | cons x l =>
-    cases b with
-    | nil => simp [cells] at hd
-    | cons y l' =>
-      have bc := cells_bounds l x ha c (List.mem_of_getElem? hc)
-      have bd := cells_bounds l' y hb d (List.mem_of_getElem? hd)
-      exact ov_eq c.1 c.2 d.1 d.2 (le_of_lt bc.2.1) (le_of_lt bd.2.1)
+  have bc := cells_nodes ptol a ha c (List.mem_of_getElem? hc)
+  have bd := cells_nodes ptol b hb d (List.mem_of_getElem? hd)
+  exact ov_eq c.1 c.2 d.1 d.2 (le_of_lt bc.2.2.1) (le_of_lt bd.2.2.1)
 
 /-- Row sums: the overlaps reported for cell `i` of the first tessellation add up to its measure. -/
-theorem line_tess_rowsum (a b : List Rat) (ha : strictInc a = true) (hb : strictInc b = true)
+theorem line_tess_rowsum (ptol : Rat) (a b : List Rat) (ha : gapInc ptol a = true)
+    (hb : gapInc ptol b = true) (hs : sepNodes ptol a b = true)
     (h0 : a.head? = b.head?) (hl : a.getLast? = b.getLast?)
     (i : Nat) (c : Cell) (hc : (cells a)[i]? = some c) :
-    rowSum (lineTess (cells a) (cells b)) i = c.2 - c.1 := by
-  have h := rowSum_tessFrom (cells a) (cells b) 0 i c hc
+    rowSum (lineTess ptol (cells a) (cells b)) i = c.2 - c.1 := by
+  rw [lineTess_eq_X ptol a b ha hb hs]
+  have h := rowSum_tessFrom pairOverlapX (cells a) (cells b) 0 i c hc
   rw [Nat.zero_add] at h
-  unfold lineTess
   rw [h]
+  have ha' := gapInc_strictInc ptol a ha
+  have hb' := gapInc_strictInc ptol b hb
   cases a with
   | nil => simp [cells] at hc
   | cons x l =>
@@ -64,16 +69,19 @@ theorem line_tess_rowsum (a b : List Rat) (ha : strictInc a = true) (hb : strict
     | cons y l' =>
       simp only [List.head?_cons, Option.some.injEq] at h0
       rw [getLast?_eq_lastOr, getLast?_eq_lastOr, Option.some.injEq] at hl
-      have bc := cells_bounds l x ha c (List.mem_of_getElem? hc)
-      exact sumOv_cover c l' y hb (le_of_lt bc.2.1) (h0 ▸ bc.1) (hl ▸ bc.2.2)
+      have bc := cells_bounds l x ha' c (List.mem_of_getElem? hc)
+      exact sumOv_cover c l' y hb' (le_of_lt bc.2.1) (h0 ▸ bc.1) (hl ▸ bc.2.2)
 
 /-- Column sums: the overlaps reported for cell `j` of the second tessellation add up to its measure. -/
-theorem line_tess_colsum (a b : List Rat) (ha : strictInc a = true) (hb : strictInc b = true)
+theorem line_tess_colsum (ptol : Rat) (a b : List Rat) (ha : gapInc ptol a = true)
+    (hb : gapInc ptol b = true) (hs : sepNodes ptol a b = true)
     (h0 : a.head? = b.head?) (hl : a.getLast? = b.getLast?)
     (j : Nat) (d : Cell) (hd : (cells b)[j]? = some d) :
-    colSum (lineTess (cells a) (cells b)) j = d.2 - d.1 := by
-  unfold lineTess
-  rw [colSum_tessFrom (cells a) (cells b) 0 j d hd]
+    colSum (lineTess ptol (cells a) (cells b)) j = d.2 - d.1 := by
+  rw [lineTess_eq_X ptol a b ha hb hs]
+  rw [colSum_tessFrom pairOverlapX (cells a) (cells b) 0 j d hd]
+  have ha' := gapInc_strictInc ptol a ha
+  have hb' := gapInc_strictInc ptol b hb
   cases b with
   | nil => simp [cells] at hd
   | cons y l' =>
@@ -82,15 +90,16 @@ theorem line_tess_colsum (a b : List Rat) (ha : strictInc a = true) (hb : strict
     | cons x l =>
       simp only [List.head?_cons, Option.some.injEq] at h0
       rw [getLast?_eq_lastOr, getLast?_eq_lastOr, Option.some.injEq] at hl
-      have bd := cells_bounds l' y hb d (List.mem_of_getElem? hd)
+      have bd := cells_bounds l' y hb' d (List.mem_of_getElem? hd)
       rw [sumOvL_eq_sumOv d (le_of_lt bd.2.1) (cells (x :: l))
-        (fun c hc => le_of_lt (cells_bounds l x ha c hc).2.1)]
-      exact sumOv_cover d l x ha (le_of_lt bd.2.1) (h0 ▸ bd.1) (hl ▸ bd.2.2)
+        (fun c hc => le_of_lt (cells_bounds l x ha' c hc).2.1)]
+      exact sumOv_cover d l x ha' (le_of_lt bd.2.1) (h0 ▸ bd.1) (hl ▸ bd.2.2)
 
 /-- `match_1d(new, old, tol, "averaged").toarray()`: every row sums to one. -/
-theorem match_avg_rows_one (a b : List Rat) (ha : strictInc a = true) (hb : strictInc b = true)
+theorem match_avg_rows_one (ptol : Rat) (a b : List Rat) (ha : gapInc ptol a = true)
+    (hb : gapInc ptol b = true) (hs : sepNodes ptol a b = true)
     (h0 : a.head? = b.head?) (hl : a.getLast? = b.getLast?) :
-    ∀ row ∈ match1d .averaged (cells a) (cells b), row.sum = 1 := by
+    ∀ row ∈ match1d ptol .averaged (cells a) (cells b), row.sum = 1 := by
   intro row hrow
   unfold match1d dense at hrow
   obtain ⟨i, _, hi, rfl⟩ := mem_tabFrom _ 0 _ row hrow
@@ -98,67 +107,71 @@ theorem match_avg_rows_one (a b : List Rat) (ha : strictInc a = true) (hb : stri
   obtain ⟨c, hc⟩ : ∃ c, (cells a)[i]? = some c := ⟨(cells a)[i], List.getElem?_eq_getElem hi⟩
   rw [sum_row_dense]
   · refine Eq.trans (rowSum_scale_row (fun i => cellVol ((cells a).getD i (0, 0))) _ i) ?_
-    show rowSum (lineTess (cells a) (cells b)) i / cellVol ((cells a).getD i (0, 0)) = 1
-    rw [line_tess_rowsum a b ha hb h0 hl i c hc]
+    show rowSum (lineTess ptol (cells a) (cells b)) i / cellVol ((cells a).getD i (0, 0)) = 1
+    rw [line_tess_rowsum ptol a b ha hb hs h0 hl i c hc]
     have hci : (cells a).getD i (0, 0) = c := by
       rw [List.getD_eq_getElem?_getD, hc]; rfl
-    cases a with
-    | nil => simp [cells] at hc
-    | cons x l =>
-      have bc := cells_bounds l x ha c (List.mem_of_getElem? hc)
-      simp only [hci]
-      rw [cellVol_of_le c (le_of_lt bc.2.1)]
-      exact div_self (by linarith [bc.2.1])
+    have bc := cells_nodes ptol a ha c (List.mem_of_getElem? hc)
+    simp only [hci]
+    rw [cellVol_of_le c (le_of_lt bc.2.2.1)]
+    exact div_self (by linarith [bc.2.2.1])
   · intro t ht
     simp only [scaleTriples, List.mem_map] at ht
     obtain ⟨t0, ht0, rfl⟩ := ht
-    exact (line_tess_indices _ _ t0 ht0).2
+    exact (line_tess_indices ptol _ _ t0 ht0).2
 
 /-- `match_1d(new, old, tol, "integrated").toarray()`: every column sums to one. -/
-theorem match_int_cols_one (a b : List Rat) (ha : strictInc a = true) (hb : strictInc b = true)
+theorem match_int_cols_one (ptol : Rat) (a b : List Rat) (ha : gapInc ptol a = true)
+    (hb : gapInc ptol b = true) (hs : sepNodes ptol a b = true)
     (h0 : a.head? = b.head?) (hl : a.getLast? = b.getLast?) :
-    ∀ j, j < (cells b).length → colSumDense (match1d .integrated (cells a) (cells b)) j = 1 := by
+    ∀ j, j < (cells b).length →
+      colSumDense (match1d ptol .integrated (cells a) (cells b)) j = 1 := by
   intro j hj
   obtain ⟨d, hd⟩ : ∃ d, (cells b)[j]? = some d := ⟨(cells b)[j], List.getElem?_eq_getElem hj⟩
   unfold match1d
   rw [colSumDense_dense _ _ _ j hj]
   · refine Eq.trans (colSum_scale_col (fun j => cellVol ((cells b).getD j (0, 0))) _ j) ?_
-    show colSum (lineTess (cells a) (cells b)) j / cellVol ((cells b).getD j (0, 0)) = 1
-    rw [line_tess_colsum a b ha hb h0 hl j d hd]
+    show colSum (lineTess ptol (cells a) (cells b)) j / cellVol ((cells b).getD j (0, 0)) = 1
+    rw [line_tess_colsum ptol a b ha hb hs h0 hl j d hd]
     have hdj : (cells b).getD j (0, 0) = d := by
       rw [List.getD_eq_getElem?_getD, hd]; rfl
-    cases b with
-    | nil => simp [cells] at hd
-    | cons y l' =>
-      have bd := cells_bounds l' y hb d (List.mem_of_getElem? hd)
-      simp only [hdj]
-      rw [cellVol_of_le d (le_of_lt bd.2.1)]
-      exact div_self (by linarith [bd.2.1])
+    have bd := cells_nodes ptol b hb d (List.mem_of_getElem? hd)
+    simp only [hdj]
+    rw [cellVol_of_le d (le_of_lt bd.2.2.1)]
+    exact div_self (by linarith [bd.2.2.1])
   · intro t ht
     simp only [scaleTriples, List.mem_map] at ht
     obtain ⟨t0, ht0, rfl⟩ := ht
-    exact (line_tess_indices _ _ t0 ht0).1
+    exact (line_tess_indices ptol _ _ t0 ht0).1
 
-/-! ### non-vacuity: concrete tessellations (coincident interior node 1/2, touching cells, uneven sizes) -/
+/-! ### non-vacuity: concrete tessellations (coincident interior node 1/2, touching cells, uneven
+sizes); tolerance 1/100000000 as in the code -/
 
-example : strictInc [0, 1/2, 5/4, 2] = true ∧ strictInc [0, 1/4, 1/2, 2] = true := by decide +kernel
+example : gapInc (1/100000000) [0, 1/2, 5/4, 2] = true ∧ gapInc (1/100000000) [0, 1/4, 1/2, 2] = true
+    ∧ sepNodes (1/100000000) [0, 1/2, 5/4, 2] [0, 1/4, 1/2, 2] = true := by decide +kernel
 
 /-- the triples the real code reports for these node sets (weights in arc-length units), zero-weight
     touching pairs included -/
-example : lineTess (cells [0, 1/2, 5/4, 2]) (cells [0, 1/4, 1/2, 2])
+example : lineTess (1/100000000) (cells [0, 1/2, 5/4, 2]) (cells [0, 1/4, 1/2, 2])
     = [(0, 0, 1/4), (0, 1, 1/4), (0, 2, 0), (1, 1, 0), (1, 2, 3/4), (2, 2, 3/4)] := by decide +kernel
 
-example : match1d .averaged (cells [0, 1/2, 5/4, 2]) (cells [0, 1/4, 1/2, 2])
+example : match1d (1/100000000) .averaged (cells [0, 1/2, 5/4, 2]) (cells [0, 1/4, 1/2, 2])
     = [[1/2, 1/2, 0], [0, 0, 1], [0, 0, 1]] := by decide +kernel
 
-example : match1d .integrated (cells [0, 1/2, 5/4, 2]) (cells [0, 1/4, 1/2, 2])
+example : match1d (1/100000000) .integrated (cells [0, 1/2, 5/4, 2]) (cells [0, 1/4, 1/2, 2])
     = [[1, 1, 0], [0, 0, 1/2], [0, 0, 1/2]] := by decide +kernel
 
-example : rowSum (lineTess (cells [0, 1/2, 5/4, 2]) (cells [0, 1/4, 1/2, 2])) 1 = 5/4 - 1/2 := by
-  decide +kernel
+example : rowSum (lineTess (1/100000000) (cells [0, 1/2, 5/4, 2]) (cells [0, 1/4, 1/2, 2])) 1
+    = 5/4 - 1/2 := by decide +kernel
 
 /-- orientation of a cell does not matter to the code (it takes max/min itself) -/
-example : lineTess [(1/2, 0), (1/2, 2)] [(2, 1), (0, 1)]
+example : lineTess (1/100000000) [(1/2, 0), (1/2, 2)] [(2, 1), (0, 1)]
     = [(0, 1, 1/2), (1, 0, 1), (1, 1, 1/2)] := by decide +kernel
+
+/-- the hypothesis `sepNodes` is needed: nodes 1/2 and 1/2 + 10⁻⁹ are closer than the tolerance, the
+    overlap of length 10⁻⁹ is reported with weight 0 and the row of cell 1 sums to 1/2 - 10⁻⁹. -/
+example : sepNodes (1/100000000) [0, 1/2, 1] [0, 1/2 + 1/1000000000, 1] = false
+    ∧ rowSum (lineTess (1/100000000) (cells [0, 1/2, 1]) (cells [0, 1/2 + 1/1000000000, 1])) 1
+        = 1/2 - 1/1000000000 := by decide +kernel
 
 end PorepyVerif.C33
